@@ -111,7 +111,8 @@ func (v *VMap) validate(prefix string, tv reflect.Value) *VMap {
 				case Either, BothEq:
 					v.vc.initValid2FieldsMap(&name2Value{
 						validName:  validName,
-						fieldName:  key,
+						scope:      prefix,
+						fieldName:  v.getKey(prefix, key),
 						cusMsg:     cusMsg,
 						reflectVal: reflect.ValueOf(val),
 					})
